@@ -181,7 +181,7 @@ def replay(case, rec):
 
 
 def run(rec, rng, tier, shard, nshards):
-    n = 500 if tier == 'quick' else 8000
+    n = 1500 if tier == 'quick' else 12000
     for i in range(n):
         case = gen_case(rng)
         try:
